@@ -70,14 +70,14 @@ func drawCalls(t *tape.Tape, family string) []jsCall {
 		c := jsCall{}
 		c.ctx = t.Weighted("js.ctx", 3, 2) == 1
 		kinds := []string{"echo", "concat", "sum", "arr", "obj", "probe", "probe", "probe", "node", "nan", "inf", "null", "undef", "throw", "syntax", "oddargs",
-			"throwstr", "posinf", "nested", "objnull", "arrnull", "booleq", "echo", "mathfloor", "neginf2", "getter", "globals", "globals", "probethrow", "probethrow", "probethrow"}
+			"throwstr", "posinf", "nested", "objnull", "arrnull", "booleq", "echo", "mathfloor", "neginf2", "getter", "globals", "globals", "probethrow", "probethrow", "probethrow", "badname", "badname", "nodeindirect", "nodeindirect"}
 		c.kind = kinds[t.Intn("js.kind", len(kinds))]
 		if c.kind == "node" {
 			c.ctx = true
 		}
 		// argument names: a random subset of the universe (at least what the script needs)
 		n := t.Intn("js.nargs", 4)
-		if (c.kind == "echo" || c.kind == "obj" || c.kind == "objnull" || c.kind == "arrnull" || c.kind == "booleq") && n < 1 {
+		if (c.kind == "echo" || c.kind == "obj" || c.kind == "objnull" || c.kind == "arrnull" || c.kind == "booleq" || c.kind == "badname") && n < 1 {
 			n = 1
 		}
 		if (c.kind == "concat" || c.kind == "sum" || c.kind == "arr" || c.kind == "nested") && n < 2 {
@@ -177,6 +177,11 @@ func (c jsCall) script() string {
 		return "'defined:' + " + strings.Join(parts, " + ")
 	case "node":
 		return "_node"
+	case "nodeindirect":
+		// the documented global, reached without spelling its name out
+		return "this['_no' + 'de']"
+	case "badname":
+		return "1"
 	case "nan":
 		return "0/0"
 	case "inf":
@@ -314,6 +319,11 @@ func (c jsCall) expected(nodeJSON string) (val interface{}, isErr bool) {
 		return s, false
 	case "node":
 		return nodeJSON, false
+	case "nodeindirect":
+		if c.ctx {
+			return nodeJSON, false
+		}
+		return nil, true // undefined
 	}
 	return nil, true
 }
@@ -418,6 +428,11 @@ func (t *jsTask) runAll(yield func()) {
 		}
 		if c.kind == "oddargs" {
 			args = append(args, "dangling")
+		}
+		if c.kind == "badname" {
+			// after the good pairs, a pair whose name is not a string (in a schema: a name computed by an
+			// xpath that matches nothing): the call is refused while its arguments are being collected
+			args = append(args, 123, "v")
 		}
 		var got interface{}
 		var err error
